@@ -113,6 +113,9 @@ def run(ctx):
     ctx.rule("C16-R8", "every datagram the endpoint emits is prefixed by the varint of the session's quarter stream id and nothing else")
     shared.driver_datagram_tables(ctx, "C16-R8")
 
+    ctx.rule("C16-R9", "the QUIC close the endpoint emits at termination carries a registered H3 code (NoError / the protocol error), never a peer-chosen number")
+    shared.worker_run_table(ctx, "C16-R9")
+
     ctx.rule("C16-R5", "stream preambles and datagram prefix (writers)")
     shared.preamble_writers(ctx, "C16-R5")
 
